@@ -2,6 +2,7 @@
 # usage: tools/mkdiff.sh <name> <command...>: run the command in the scratch worktree /tmp/mk-wt (synced to /repo HEAD),
 # store the resulting diff as /verif/work/<name>.diff and restore the worktree
 name="$1"; shift
+[ -d /tmp/mk-wt ] || git -C /repo worktree add -q --detach /tmp/mk-wt HEAD
 cd /tmp/mk-wt && git checkout -q --detach "$(git -C /repo rev-parse HEAD)" && git checkout -q -- . && "$@"
 git diff > /verif/work/$name.diff; git checkout -q -- .
 test -s /verif/work/$name.diff || echo "EMPTY $name"
